@@ -73,8 +73,28 @@ def build_inputs(case):
         sol = collections.Counter()
         for mj, c in ms["alleles"]:
             sol[SolvedAllele(g, mj)] = c
-        majors.append(MajorSolution(ms.get("score", 0.0), sol, cn, [Mutation(p, o) for p, o in ms.get("added", [])]))
+        cn_ms = CNSolution(g, 0, list(ms["cn"])) if ms.get("cn") else cn     # a candidate under another gene structure
+        majors.append(MajorSolution(ms.get("score", 0.0), sol, cn_ms, [Mutation(p, o) for p, o in ms.get("added", [])]))
     return g, cov, majors
+
+
+def own_structure_evidence(c, raw_cov):
+    """the evidence estimate_minor has to hand to solve_minor_model for candidate c.major_sol: the quality-filtered table filtered with
+    the copy numbers of THAT candidate's gene structure (minor.py:57-74,99), recomputed here from the raw table"""
+    from aldy.coverage import Coverage
+    g, considered, cnsol = c.gene, set(c.mut_order), c.major_sol.cn_solution
+
+    def fn(cov, mut):
+        r = g.region_at(mut.pos)
+        if mut.op != "_" and not (mut in considered or (r and r[1][0] == "e") or (r and r[1] in ["utr3", "utr5", "up"])):
+            return False
+        cond = cov.basic_filter(mut, cn=raw_cov.profile.cn_max)
+        if mut.op != "_":
+            cond = cond and cov.basic_filter(mut, cn=cnsol.position_cn(mut.pos) + 0.5)
+        return cond
+    exp = raw_cov.filtered(Coverage.quality_filter).filtered(fn)
+    flat = lambda cv: {(p, o): len(v) for p, ops in cv._coverage.items() for o, v in ops.items() if len(v)}
+    return flat(exp), flat(c.cov)
 
 
 class Call:
@@ -82,11 +102,15 @@ class Call:
     pass
 
 
+RAW_COV = [None]
+
+
 def run_impl(case):
     """run estimate_minor under the recorder; returns (calls, results, error)"""
     import aldy.minor as M
     from aldy import lpinterface
     g, cov, majors = build_inputs(case)
+    RAW_COV[0] = cov
     calls = []
     orig_solve = M.solve_minor_model
     created = []
@@ -94,6 +118,7 @@ def run_impl(case):
     def hooked(gene_, coverage, major_sol, alleles_list, mutations, solver, max_solutions=1):
         c = Call()
         c.gene, c.cov, c.major_sol, c.alleles_list = gene_, coverage, major_sol, list(alleles_list)
+        c.raw_cov = RAW_COV[0]
         c.mut_order = list(mutations)            # the same set object the implementation iterates
         c.n_models_before = len(created)
         calls.append(c)
@@ -697,6 +722,34 @@ def gen_planted(rng, gname, d=20):
             "planted": [list(x) for x in pair]}
 
 
+def gen_toy_two_structures(rng, k):
+    """two candidates under DIFFERENT gene structures in one estimate_minor call, and sites whose read fraction passes the single-copy
+    threshold 0.5 / (copies + 0.5) of one structure but not of the other (e.g. 7 of 40 reads: 0.175 is above 0.143 and below 0.2)"""
+    g = gene("toy")
+    sites = toy_sites()
+    a2 = rng.choice(TOY_ALT[("1", "1")])
+    a3 = rng.choice(TOY_ALT[("1", "1", "1")])
+    majors = [{"alleles": a2, "added": [], "score": 0.0, "cn": ["1", "1"]}, {"alleles": a3, "added": [], "score": rng.choice([0.0, 0.5]), "cn": ["1", "1", "1"]}]
+    if rng.random() < 0.5:
+        majors.reverse()
+    table = {}
+    for pos in sorted({p for p, _ in sites}):
+        table[(pos, "_")] = 40
+    for (pos, op) in sites:
+        r = rng.random()
+        if r < 0.35:
+            n = rng.choice([6, 7, 7, 7, 8])          # between the thresholds of two and of three copies
+        elif r < 0.6:
+            n = rng.choice([13, 20, 27])
+        else:
+            continue
+        table[(pos, op)] = n
+        if not op.startswith("ins"):
+            table[(pos, "_")] = max(0, table[(pos, "_")] - n)
+    return {"stream": "toy-two-structures", "gene": "toy", "cn": ["1", "1"], "majors": majors,
+            "table": sorted([p, o, c] for (p, o), c in table.items() if c > 0), "phases": None, "params": {}}
+
+
 def gen_planted_novel(rng, gname, d=20):
     """noise-free evidence of two catalogued default-structure copies ONE of which carries, in addition, a function-altering variant
     of the catalogue that neither allele defines - preferably outside the exons (the evidence filter of estimate_minor keeps a
@@ -894,6 +947,20 @@ def describe_asg(inst, asg):
 def judge(chk, case, ci, c, inst, rename, problems, raw, rep, v):
     stream = case["stream"]
     wf, lpv, optv, rawv, rawpt, repv, nfb = v
+    # ---- the evidence of THIS candidate: filtered with the copy numbers of its own gene structure
+    if getattr(c, "raw_cov", None) is not None:
+        try:
+            want_ev, got_ev = own_structure_evidence(c, c.raw_cov)
+        except Exception:
+            want_ev = got_ev = None
+        if want_ev is not None:
+            chk.count(stream, "own-structure-evidence-compared")
+            if want_ev != got_ev:
+                dif = sorted(set(want_ev.items()) ^ set(got_ev.items()))[:8]
+                chk.fail("carried-reads", {"stream": stream, "gene": case["gene"], "what": "evidence filtered for another structure"}, case,
+                         {"evidence (filtered with the candidate's own structure)": [list(map(str, x)) for x in dif if x in set(want_ev.items())]},
+                         {"evidence handed to the model": [list(map(str, x)) for x in dif if x in set(got_ev.items())],
+                          "structure": sorted(c.major_sol.cn_solution.solution.items()), "call": ci})
     if nfb in (0, 1):
         chk.count(stream, "noise_free_b-" + ("holds" if nfb == 1 else "does-not-hold"))
     desc_base = {"stream": stream, "gene": case["gene"]}
@@ -1079,6 +1146,7 @@ def run(chk):
     cases = load_corpus() + [dict(w, stream="witness") for w in WITNESSES.values()]
     cases += [gen_toy(rng, k) for k in range(200 if quick else 2500)]
     cases += [gen_toy_phased(rng, k) for k in range(12 if quick else 150)]
+    cases += [gen_toy_two_structures(rng, k) for k in range(12 if quick else 150)]
     cases += [gen_planted_toy(rng) for _ in range(30 if quick else 300)]
     for gname, n in ([("toy", 10), ("cyp2c19", 6)] if quick else [("toy", 80), ("cyp2c19", 40), ("cyp2c9", 30), ("cyp3a5", 20), ("tpmt", 20), ("cyp2d6", 10)]):
         cases += [c for c in (gen_planted_novel(rng, gname) for _ in range(n)) if c is not None]
